@@ -194,7 +194,7 @@ def predicate_polarity(ix, e, kind, depth=0):
         return True
     if depth > 2 or not isinstance(e[1], str) or e[1] not in ix.bodies or e[1] in (IS_RUNNING, LIMITS_EXCEEDED):
         return None
-    key = (id(ix), e[1], kind)
+    key = (ix.uid, e[1], kind)
     if key not in _WRAP:
         _WRAP[key] = None
         _WRAP[key] = _wrapper_polarity(ix, ix.bodies[e[1]], kind, depth)
@@ -622,7 +622,7 @@ _DERIVED_EQ = {}
 def _derived_discr_eq(ix, callee):
     """Is `callee` a `<T as PartialEq>::eq` / `ne` of the crate whose body compares the two discriminants and
     nothing else (the derive on a field-less enum)?  Returns (type path, is_ne) or None."""
-    key = (id(ix), callee)
+    key = (ix.uid, callee)
     if key in _DERIVED_EQ:
         return _DERIVED_EQ[key]
     res = None
